@@ -35,6 +35,15 @@ import (
 // Concurrent part: peer goroutines subscribe/unsubscribe, API goroutines publish unique values; the recorded
 // history (call/return stamps from rig.Seq, outputs from the taps) is checked with porcupine against a
 // set + publish model per server feature.
+//
+// conc-rmw part (regkit.go, shared with C09): actor goroutines with their own connections toggle their own pairs on a
+// registry pre-filled with 50-250 bystander entries; every answer and the registry at the quiescent point after every
+// round must be what the acknowledged calls leave (calls on different pairs commute). Aimed at deletes that are
+// non-atomic read-modify-write cycles of the whole registry.
+//
+// early part (regkit.go, shared with C09): a peer that subscribes [0]/0 -> local NodeManagement before its own detailed
+// discovery reply was processed; life cycle of that entry (duplicate, list, fan-out, delete with and without device
+// part, second delete, fresh peers / other peers leaving, own disconnect and reconnect).
 
 func init() {
 	rig.Register(&rig.Check{
@@ -42,17 +51,25 @@ func init() {
 		Floor: 600,
 		Rule: "sequential case = one World (5 local server features incl. NodeManagement, one of them in the sub-entity [1,1] with the type and feature number of the one in its parent [1]; 1 local client feature; 3 identically numbered peers; " +
 			"in every second case a peer without write handler, to which every send fails, is the first subscriber of every server feature) and a seeded history of 10-25 operations " +
-			"{subscribe (valid / duplicate / wrong role / wrong type / unknown entity / unknown feature, device part omitted in client and/or server address), unsubscribe (present / absent / another peer's pair / unknown), " +
+			"{subscribe (valid / duplicate / wrong role / wrong type / requested type Generic for concretely typed features / unknown entity / unknown feature / the peer's NodeManagement [0]/0 or a client feature [0]/1 of the device information entity as client, device part omitted in client and/or server address), unsubscribe (present / absent / another peer's pair / unknown), " +
+			"a fresh peer that connects and is removed again before it announced anything (registry, events and the fan-out of the local NodeManagement and of one more server feature are judged right after it), " +
+			"a re-announcement without reconnect (detailed discovery reply once more, or partial notify lastStateChange=added for the known entity [0], [1] or [1,1]; same addresses, roles and types, in every second one new description texts: registry with ids, events and fan-out unchanged; followed by the same request again - refused -, or the delete of a held pair - granted -, and a fan-out probe), " +
 			"a fifth of the requests and a third of the deletes aimed at a pair that another peer holds with a FOREIGN device part in the client and/or server address (client address: the device of another connected peer - preferably the holder of the same-numbered pair -, of the mute peer, of the local device, or of nobody; " +
 			"server address: the device of a peer or of nobody), each followed by a SetData on the addressed server feature whose fan-out is judged, " +
 			"SetData, UpdateData, remote write (a quarter of them aimed at the feature with the same number in the parent / sub / sibling entity of a subscribed one), registry read}; non-trivial if it saw at least one grant, one rejection and one fan-out to >= 1 subscriber that was judged. " +
 			"concurrent case = 3 peer goroutines x 3-4 subscribe/unsubscribe calls and one publisher goroutine per server feature (1-3 of [1]/1, [1,1]/1, [2]/1; mute first subscriber in every second case; in every third case two fifths of the calls carry a foreign device part, " +
 			"mostly the device of a fourth, identically numbered bystander peer that is subscribed to everything and silent during the concurrent phase: its entries and ids must be the same afterwards and every publish must reach it), checked with porcupine; non-trivial if at least one publish reached a subscriber and the check returned Ok or Illegal. " +
+			"rmw case (shared with C09, regkit.go) = a registry pre-filled with 50-250 entries of a silent bystander connection on as many server features; 3-4 actor goroutines, each with its own connection and its own 1-2 (client, server feature) pairs, " +
+			"toggle subscribe / unsubscribe (now and then a repeated call) for 6 (thorough 12) rounds of 8-16 calls each; every call's answer must be the one its own pair's history demands (calls on different pairs commute), and at the quiescent point after every round " +
+			"SubscriptionsOnFeature, Subscriptions(peer) with ids, one nodeManagementSubscriptionData read, the bystander's entries and the add/remove events must equal what the acknowledged calls leave; non-trivial if in some round a call overlapped an acknowledged delete of another connection (call/return stamps). " +
+			"early case = two announced peers and one that subscribes [0]/0 to the local NodeManagement BEFORE its own discovery reply; 3-6 steps of {discovery reply, the same request again, delete, a fresh peer connects and leaves, an announced peer leaves, registry read}, each followed by a change of the local NodeManagement data, then the subscriber's own disconnect / reconnect; non-trivial if a fan-out was judged. " +
 			"distinct = hash of the operation shapes (kinds, features, outcomes) without payload values.",
 		Assumptions: []string{
 			"message handling and notification sending are synchronous, so the taps are complete when the call into the stack has returned",
 			"a request that omits the device part of an address, or whose feature lookup ignores it, is judged by the entity/feature part on the sender's (client) resp. the local (server) tree, as the statement's 'omitted device address' case says",
-			"a special-role client feature (the peer's own NodeManagement) is outside the statement: both outcomes are accepted, the reference follows the observed one",
+			"a special-role client feature (the peer's own NodeManagement) is outside the statement: both outcomes of a request that is otherwise justified are accepted, the reference follows the observed one; once acknowledged, the pair is an entry like any other (duplicate rule, delete, fan-out, list)",
+			"a requested serverFeatureType Generic is not 'the requested type' of a concretely typed feature: such a request must be refused; nothing is asserted about features whose own type is Generic (none exists in these worlds)",
+			"early part: the device part of the CLIENT address in the notifications and list entries of a pair that was acknowledged before the peer's discovery reply may be absent; notifications are attributed by the connection they are written to",
 			"a request whose client (server) address names a device other than the sender (the local device): the statement does not say whether that device part is ignored - the stack's feature lookups ignore it - or makes the request invalid. " +
 				"If the entity/feature numbers, read on the sender's resp. the local tree, justify the request, both outcomes are accepted for the SENDER's own entry (result, event, registry and fan-out must agree with each other); if they do not, it must be refused; " +
 				"in no case may it add, remove or renumber an entry of another connection (pinned tree: requests are served by the numbers; a delete compares the client device literally and is refused; a foreign server device is ignored)",
@@ -64,8 +81,49 @@ func init() {
 			{Name: "seq", Cases: func(t rig.Tier) int { return map[rig.Tier]int{rig.Quick: 1200, rig.Thorough: 48000}[t] }, Run: c08Seq, Procs: 2},
 			{Name: "conc", Cases: func(t rig.Tier) int { return map[rig.Tier]int{rig.Quick: 900, rig.Thorough: 30000}[t] }, Run: c08Conc, Procs: 4, Quiet: 90 * time.Second},
 			{Name: "conc-race", Race: true, Cases: func(t rig.Tier) int { return map[rig.Tier]int{rig.Quick: 240, rig.Thorough: 4800}[t] }, Run: c08Conc, Procs: 4, Quiet: 120 * time.Second},
+			{Name: "conc-rmw", Cases: func(t rig.Tier) int { return map[rig.Tier]int{rig.Quick: 24, rig.Thorough: 600}[t] }, Run: func(c *rig.Ctx) { rkRmwCase(c, c08RegKind) }, Procs: 4, Quiet: 120 * time.Second},
+			{Name: "early", Cases: func(t rig.Tier) int { return map[rig.Tier]int{rig.Quick: 160, rig.Thorough: 4000}[t] }, Run: func(c *rig.Ctx) { rkEarlyCase(c, c08RegKind) }, Procs: 2},
 		},
 	})
+}
+
+// c08RegKind: the subscription registry as seen by the shared "rmw" part (regkit.go).
+var c08RegKind = rkRegKind{
+	name: "subscription", exclusive: false, evType: api.EventTypeSubscriptionChange,
+	add: func(p *rig.Peer, ca, sa *model.FeatureAddressType, t model.FeatureTypeType) model.MsgCounterType {
+		return p.Subscribe(ca, sa, t)
+	},
+	del: func(p *rig.Peer, ca, sa *model.FeatureAddressType) model.MsgCounterType { return p.Unsubscribe(ca, sa) },
+	onFeature: func(w *rig.World, sa model.FeatureAddressType) []string {
+		var ks []string
+		for _, en := range w.Local.SubscriptionManager().SubscriptionsOnFeature(sa) {
+			ks = append(ks, rkFeatKey(en.ClientFeature))
+		}
+		sort.Strings(ks)
+		return ks
+	},
+	ofPeer: func(w *rig.World, p *rig.Peer) []string {
+		var es []string
+		for _, en := range w.Local.SubscriptionManager().Subscriptions(p.RD) {
+			es = append(es, fmt.Sprintf("#%d %s>%s", en.Id, rkFeatKey(en.ClientFeature), rkFeatKey(en.ServerFeature)))
+		}
+		sort.Strings(es)
+		return es
+	},
+	has: func(w *rig.World, sa, ca *model.FeatureAddressType) (bool, bool) { return false, false },
+	readCmd: func() model.CmdType {
+		return model.CmdType{NodeManagementSubscriptionData: &model.NodeManagementSubscriptionDataType{}}
+	},
+	readBack: func(cmd model.CmdType) ([]string, bool) {
+		if cmd.NodeManagementSubscriptionData == nil {
+			return nil, false
+		}
+		var ps []string
+		for _, en := range cmd.NodeManagementSubscriptionData.SubscriptionEntry {
+			ps = append(ps, rkKey(en.ClientAddress)+">"+rkKey(en.ServerAddress))
+		}
+		return ps, true
+	},
 }
 
 // ---------------------------------------------------------------------------
@@ -79,6 +137,9 @@ var c08PeerFeats = []rkPeerFeat{
 	{Name: "d", Ent: []uint{1}, Id: 3, Typ: model.FeatureTypeTypeDeviceClassification, Role: model.RoleTypeServer},
 	{Name: "e", Ent: []uint{1}, Id: 4, Typ: model.FeatureTypeTypeNodeManagement, Role: model.RoleTypeClient},
 	{Name: "f", Ent: []uint{1}, Id: 5, Typ: model.FeatureTypeTypeMeasurement, Role: model.RoleTypeClient},
+	// a client feature in the device information entity [0], next to the peer's NodeManagement [0]/0 (appended: c08Conc and
+	// c09Duel pick their clients by index)
+	{Name: "g", Ent: []uint{0}, Id: 1, Typ: model.FeatureTypeTypeDeviceClassification, Role: model.RoleTypeClient},
 }
 
 type c08Entry struct {
@@ -222,7 +283,7 @@ func (cw *c08World) expectGrant(peer int, cli, srv string, typ model.FeatureType
 func (cw *c08World) compatibleClients(srv string) []string {
 	switch cw.locals[srv].Typ {
 	case model.FeatureTypeTypeDeviceClassification:
-		return []string{"a", "b"}
+		return []string{"a", "b", "a", "b", "g"}
 	case model.FeatureTypeTypeIdentification:
 		return []string{"c"}
 	case model.FeatureTypeTypeNodeManagement:
@@ -414,7 +475,7 @@ func c08Seq(c *rig.Ctx) {
 	fail := func(sig, format string, a ...any) {
 		c.Violate(sig, "%s\n history:\n  %s", fmt.Sprintf(format, a...), strings.Join(hist, "\n  "))
 	}
-	grants, rejects, fanouts := 0, 0, 0
+	grants, rejects, fanouts, fresh, reann := 0, 0, 0, 0, 0
 	servers := []string{"S0", "S1", "S2", "S3", "NM"}
 	if cw.mute != nil {
 		hist = append(hist, "peer 'mute0' (its connection has no write handler) subscribed to S0, S1, S2, S3 and NM before everybody else")
@@ -613,7 +674,14 @@ func c08Seq(c *rig.Ctx) {
 		log("   SetData %s %s %s (fan-out probe)", srv, fn, rkToken(cw.val))
 		judgeFanout(what+"/SetData-after", srv, fn, cw.val, true, outs)
 		w.Core.Take()
-		c.Count("foreign_device_fanout_probes", 1)
+		switch {
+		case strings.Contains(what, "foreign"):
+			c.Count("foreign_device_fanout_probes", 1)
+		case strings.Contains(what, "re-announcement"):
+			c.Count("fanout_probes_after_a_re-announcement", 1)
+		default:
+			c.Count("fanout_probes_after_a_fresh_peer_left", 1)
+		}
 	}
 
 	nOps := 10 + r.Intn(16)
@@ -657,8 +725,21 @@ func c08Seq(c *rig.Ctx) {
 					srv, cli = e.srv, e.cli
 				}
 				typ = cw.locals[srv].Typ
+			case k < 66:
+				// the peer's NodeManagement feature [0]/0 as client: towards the local NodeManagement (the standard EEBUS
+				// subscription; special-role client, see the assumptions) or towards a server feature of another type
+				kind, cli, srv = "nodemanagement-client", "nm", "NM"
+				if r.Intn(4) == 0 {
+					srv = []string{"S0", "S2", "S3"}[r.Intn(3)]
+				}
+				typ = cw.locals[srv].Typ
 			default:
-				switch r.Intn(10) {
+				switch r.Intn(12) {
+				case 10, 11:
+					// the requested type is Generic while the addressed server feature (and the client) has a concrete type:
+					// that is not "the requested type"
+					pr := [][2]string{{"a", "S0"}, {"b", "S3"}, {"a", "S1"}, {"c", "S2"}, {"e", "NM"}, {"g", "S0"}}[r.Intn(6)]
+					kind, cli, srv, typ = "generic-type-requested", pr[0], pr[1], model.FeatureTypeTypeGeneric
 				case 9:
 					kind, cli, srv, typ = "unknown-subentity-server", "a", "unkSub", model.FeatureTypeTypeDeviceClassification
 				case 0:
@@ -753,12 +834,18 @@ func c08Seq(c *rig.Ctx) {
 				probeFanout(what+"/"+fdim, srv)
 			}
 			c.Count("subscribe:"+strings.TrimPrefix(reason, ftag+":"), 1)
+			if kind == "generic-type-requested" || kind == "nodemanagement-client" {
+				c.Count(fmt.Sprintf("subscribe:%s:%s>%s granted=%v", kind, cli, srv, granted), 1)
+			}
+			if granted && len(cw.pfeat[cli].Ent) == 1 && cw.pfeat[cli].Ent[0] == 0 {
+				c.Count("grants_to_a_client_feature_in_entity_[0]", 1)
+			}
 			if omit != "" {
 				c.Count("subscribe:device-omitted"+omit, 1)
 			}
 			shape = append(shape, fmt.Sprintf("sub:%s:%s>%s%s:%v", reason, cli, srv, omit, granted))
 
-		case roll < 56: // ---------------- unsubscribe
+		case roll < 55: // ---------------- unsubscribe
 			var cli, srv, kind string
 			k := r.Intn(100)
 			es := cw.entriesOfPeer(pi)
@@ -873,7 +960,148 @@ func c08Seq(c *rig.Ctx) {
 			}
 			shape = append(shape, fmt.Sprintf("unsub:%s:%s>%s%s:%v", reason, cli, srv, omit, removed))
 
-		case roll < 92: // ---------------- data change
+		case roll >= 88 && roll < 93: // ---------------- a fresh peer connects and leaves before it announced anything
+			// SetupRemoteDevice creates the connection's device object with its NodeManagement entity [0] (no device address
+			// yet, the detailed discovery reply never comes); removing it again concerns nobody else
+			fresh++
+			ski := fmt.Sprintf("%s-fresh%d", w.Tag, fresh)
+			tap := &rig.Tap{}
+			takeAll()
+			w.Core.Take()
+			w.Local.SetupRemoteDevice(ski, tap)
+			how := "RemoveRemoteDeviceConnection"
+			if r.Intn(3) == 0 {
+				how = "RemoveRemoteDevice"
+				w.Local.RemoveRemoteDevice(ski)
+			} else {
+				w.Local.RemoveRemoteDeviceConnection(ski)
+			}
+			c.Events(1)
+			what := "fresh-peer-connect-disconnect"
+			nZero := 0
+			for _, e := range cw.subs {
+				if f := cw.pfeat[e.cli]; len(f.Ent) == 1 && f.Ent[0] == 0 {
+					nZero++
+				}
+			}
+			log("#%d a fresh peer connects and is removed (%s) before it announced anything; the reference holds %d entries, %d of them of clients in entity [0]", step, how, len(cw.subs), nZero)
+			for qi, o := range takeAll() {
+				if len(o) > 0 {
+					fail(what+"/unexpected-datagram", "peer %d received %s", qi, rig.JS(o))
+				}
+			}
+			judgeRegistry(what)
+			var sev []string
+			for _, e := range w.Core.Take() {
+				if e.P.EventType == api.EventTypeSubscriptionChange {
+					sev = append(sev, e.String())
+				}
+			}
+			c.Events(1)
+			if len(sev) > 0 {
+				fail(what+"/event-unexpected", "the peer had no subscription, yet %d subscription change events were published: %v", len(sev), sev)
+			}
+			if nZero > 0 {
+				probeFanout(what, "NM")
+				c.Count("fresh_peer_removed_while_clients_in_entity_[0]_are_subscribed", 1)
+			}
+			probeFanout(what, servers[r.Intn(len(servers))])
+			c.Count("op:"+what, 1)
+			shape = append(shape, fmt.Sprintf("fresh:%s:%d", how, nZero))
+
+		case roll >= 84 && roll < 88: // ---------------- re-announcement without reconnect
+			// A peer announces again what it has announced before, with unchanged content: the whole detailed discovery reply
+			// or a partial notify lastStateChange=added for a known entity. The stack may rebuild its objects; that is neither
+			// a subscribe nor an unsubscribe call: the registry, the ids and the fan-out stay as they are, and a pair that is
+			// subscribed already is still "subscribed already".
+			how, ent := "reply", []uint(nil)
+			if r.Intn(2) == 0 {
+				how, ent = "added", [][]uint{{1}, {1, 1}, {0}, {1}}[r.Intn(4)]
+			}
+			takeAll()
+			w.Core.Take()
+			regBefore := cw.regSnapOthers(-1)
+			// in every second one the features carry a new description text: addresses, roles and types - what makes a
+			// feature "the same" - are unchanged
+			tree := rkAnnounceList(c08PeerFeats)
+			if r.Intn(2) == 0 {
+				reann++
+				how += "+new-descriptions"
+				for i := range tree {
+					tree[i].Desc = fmt.Sprintf("revision %d", reann)
+				}
+			}
+			if strings.HasPrefix(how, "reply") {
+				p.Announce(tree)
+			} else {
+				var feats []rig.FS
+				for _, f := range tree {
+					if fmt.Sprint(f.Ent) == fmt.Sprint(ent) {
+						feats = append(feats, f)
+					}
+				}
+				p.NotifyDiscovery(true, p.Discovery(feats, map[string]model.NetworkManagementStateChangeType{fmt.Sprint(ent): model.NetworkManagementStateChangeTypeAdded}, nil))
+			}
+			c.Events(1)
+			what := "re-announcement"
+			mine := cw.entriesOfPeer(pi)
+			log("#%d peer%d announces itself again (%s %v, same addresses, roles and types); it holds %d entries", step, pi, how, ent, len(mine))
+			for qi, o := range takeAll() {
+				if ns, _ := rkNotifies(o); len(ns) > 0 {
+					fail(what+"/unexpected-notify", "peer %d received %s", qi, rig.JS(ns[0].Raw))
+				} else if qi != pi && len(o) > 0 {
+					fail(what+"/unexpected-datagram", "peer %d received %s", qi, rig.JS(o))
+				}
+			}
+			if how, detail := c08SnapDiff(regBefore, cw.regSnapOthers(-1)); how != "" {
+				fail(what+"/registry-changed", "a re-announcement with unchanged content changed the registry (%s): %s", how, detail)
+			}
+			judgeRegistry(what)
+			var sev []string
+			for _, e := range w.Core.Take() {
+				if e.P.EventType == api.EventTypeSubscriptionChange {
+					sev = append(sev, e.String())
+				}
+			}
+			c.Events(1)
+			if len(sev) > 0 {
+				fail(what+"/event-unexpected", "nobody subscribed or unsubscribed, yet %d subscription change events were published: %v", len(sev), sev)
+			}
+			c.Count("op:re-announcement:"+how, 1)
+			shape = append(shape, fmt.Sprintf("reann:%s:%v:%d", how, ent, len(mine)))
+			if len(mine) > 0 && !c.Failed() {
+				e := mine[r.Intn(len(mine))]
+				switch r.Intn(3) {
+				case 0: // the same request again
+					ca, sa := cw.cliAddr(p, e.cli), cw.srvAddr(e.srv)
+					log("   peer%d subscribes %s -> %s again", pi, e.cli, e.srv)
+					mc := p.Subscribe(ca, sa, cw.locals[e.srv].Typ)
+					c.Events(1)
+					granted := judgeResult("subscribe/duplicate-after-re-announcement", pi, mc, takeAll(), "reject")
+					judgeEvents("subscribe", api.ElementChangeAdd, granted, pi, cw.pfeat[e.cli].Key(p), cw.locals[e.srv].Key())
+					if granted {
+						rejects-- // keep the books straight: this was no rejection
+					}
+					rejects++
+					c.Count("subscribe:duplicate-after-re-announcement", 1)
+				case 1: // the delete still finds the pair
+					ca, sa := cw.cliAddr(p, e.cli), cw.srvAddr(e.srv)
+					log("   peer%d unsubscribes %s -> %s", pi, e.cli, e.srv)
+					mc := p.Unsubscribe(ca, sa)
+					c.Events(1)
+					removed := judgeResult("unsubscribe/present-after-re-announcement", pi, mc, takeAll(), "grant")
+					if removed {
+						delete(cw.subs, e.key())
+						grants++
+					}
+					judgeEvents("unsubscribe", api.ElementChangeRemove, removed, pi, cw.pfeat[e.cli].Key(p), cw.locals[e.srv].Key())
+					c.Count("unsubscribe:present-after-re-announcement", 1)
+				}
+				judgeRegistry(what + "/follow-up")
+				probeFanout(what, e.srv)
+			}
+
+		case roll < 84: // ---------------- data change
 			srv := servers[r.Intn(len(servers))]
 			if r.Intn(3) > 0 { // prefer a feature that has subscribers
 				var busy []string
